@@ -532,7 +532,10 @@ class BGP(protocol.Protocol):
         LOG.info("[%s]Neighbor's Capabilities:", self.factory.peer_addr)
         for key in cfg.CONF.bgp.running_config['capability']['remote']:
             if key == 'four_bytes_as':
-                self.fourbytesas = True
+                # 4-octet AS encoding is used only if we advertised the capability too (RFC 6793)
+                if cfg.CONF.bgp.running_config['capability']['local'].get('four_bytes_as') or \
+                        self.factory.my_asn > 65535:
+                    self.fourbytesas = True
             elif key == 'add_path':
                 if cfg.CONF.bgp.running_config['capability']['remote']['add_path'] in \
                         ['ipv4_send', 'ipv4_both']:
